@@ -234,13 +234,15 @@ def run_property(modname, tier="quick", only=None, max_shards=None, verbose=Fals
         vjobs = random.Random(seed + 1).sample(vjobs, cap)
     t1 = time.time()
     vouts = concrete_batch(modname, tier, [dict(spec=j["spec"], choices=j["choices"], values=j["values"]) for j in vjobs], seed=seed)
-    agree = 0
+    agree = order_mismatch = 0
     mismatches = []
     for j, o in zip(vjobs, vouts):
         if "error" in o:
             mismatches.append(dict(job=j, real=o))
         elif o["observed"] == j["observed"]:
             agree += 1
+        elif _order_dependent(j):
+            order_mismatch += 1          # the path assumed a set order this CPython does not exhibit for that model
         else:
             mismatches.append(dict(job=j, real=o))
     validate_s = time.time() - t1
@@ -337,6 +339,7 @@ def run_property(modname, tier="quick", only=None, max_shards=None, verbose=Fals
                          decided_by_interval_facts=stats_tot["fast"], cache_hits=stats_tot["cache_hits"]),
             solver_s=round(stats_tot["solver_s"], 2), solver="z3 " + _z3v(),
             paths_validated=len(vjobs), validation_mismatches=len(mismatches),
+            validation_skipped_set_order_not_exhibited=order_mismatch,
             counterexamples_replayed=len(rjobs), counterexample_groups=len(groups),
             order_dependent_counterexamples_not_reproduced_on_this_cpython=len(order_only),
             known_findings_hit=sorted(known_hits), inconclusive=problems,
